@@ -1278,7 +1278,12 @@ class CodeBuilder:
         ):
             return repr(value)
         elif isinstance(value, tuple) and not is_named_tuple(type(value)):
-            return repr(value)
+            # render element-wise: repr() of the whole tuple is not valid
+            # source for elements such as UUID, enum members, date or nan
+            items = [self.get_field_default_literal(item) for item in value]
+            if len(items) == 1:
+                return f"({items[0]},)"
+            return f"({', '.join(items)})"
         else:
             name = f"v_{uuid.uuid4().hex}"
             self.ensure_object_imported(value, name)
